@@ -26,6 +26,12 @@ KINDS = {
 }
 
 
+# with wallets being imported / removed the model's pending set is an approximation (which wallet a
+# transaction was on record for while a rescan raced with block steps): not compared there
+PENDING_KINDS = ['pending-set-missing', 'pending-set-extra', 'pending-not-settled', 'utxo-sbu', 'deposit-sbu',
+                 'pending-deposit-missing', 'pending-deposit-extra']
+
+
 def replay_jobs(scratch, jobs, race=False):
     binary = vlib.build_go(scratch, './cmd/replay', 'replay', race=race)
     jf = os.path.join(scratch.dir, 'jobs.jsonl')
@@ -190,7 +196,8 @@ def follower_check(pid, tier, scratch, replay, plan):
             uni = dict(r['universe'])
             uni.update(g.get('universe_extra', {}))
             for h in take:
-                jobs.append(dict(u=uni, h=json.loads(h), mode=g.get('mode', ''), opt=g.get('opt', {}), src=g['cfg']))
+                jobs.append(dict(u=uni, h=json.loads(h), mode=g.get('mode', ''), opt=g.get('opt', {}), src=g['cfg'],
+                                 ignore=PENDING_KINDS if ov.get('Lifecycle') == 'TRUE' else []))
             if not sim:
                 states += r.get('distinct', 0)
                 transitions += r.get('generated', 0)
@@ -218,7 +225,7 @@ def follower_check(pid, tier, scratch, replay, plan):
         if 'infra' in ks:
             infra.append((job, res))
             continue
-        mine = ks & own
+        mine = (ks & own) - set(job.get('ignore', []))
         if ks - own:
             other += 1
         if not mine:
@@ -240,7 +247,7 @@ def follower_check(pid, tier, scratch, replay, plan):
     paths = []
     seen = set()
     for job, res in violations:
-        sig = ','.join(sorted(set(kinds_of(res)) & own))
+        sig = ','.join(sorted((set(kinds_of(res)) & own) - set(job.get('ignore', []))))
         if sig in seen and len(paths) >= 3:
             continue
         seen.add(sig)
